@@ -28,7 +28,7 @@ ENCODED = [IH5Skeleton.for_record, SkeletonNodeInfo.for_node, init_stub_skeleton
 
 # existence-based updates (no reads of data)
 FOLLOW = [("create_group", "n"), ("setitem", "m"), ("delitem", "a"), ("attr_set", "a"), ("attr_del", "a"), ("delitem", "a/x"),
-          ("create_group", "a/x/c"), ("setitem", "a/w"), ("create_group", "a"), ("setitem", "a")]
+          ("create_group", "a/x/c"), ("setitem", "a/w"), ("create_group", "a"), ("setitem", "a"), ("attr_set", "/"), ("attr_del", "/")]
 
 
 def skel_shape(rec):
@@ -166,7 +166,7 @@ def stub_check(uni, kinds, n, fu):
 def stub(k00: int, k01: int, k02: int, k03: int, k10: int, k11: int, k12: int, k13: int,
          k20: int, k21: int, k22: int, k23: int, k30: int, k31: int, k32: int, k33: int, fu: int) -> bool:
     """
-    pre: 0 <= fu <= 9
+    pre: 0 <= fu <= 11
     post: _
     """
     n, uni = SEL.get("n", 2), SEL.get("u", "ax_k")
@@ -179,7 +179,7 @@ def stub(k00: int, k01: int, k02: int, k03: int, k10: int, k11: int, k12: int, k
             return True
         fu = SEL["fu"]
     else:
-        for c in range(10):
+        for c in range(12):
             if fu == c:
                 fu = c
                 break
